@@ -223,6 +223,11 @@ func (p *Impl) Load(cacheFile string) (err error) {
 }
 
 func (p *Impl) loadCachePkgs(lines []string) error {
+	type entry struct {
+		path string
+		pkg  *pkgCache
+	}
+	var entries []entry // stored only if the whole file is valid
 	for len(lines) > 0 {
 		line := lines[0]
 		parts := strings.SplitN(line, "\t", 4)
@@ -247,8 +252,11 @@ func (p *Impl) loadCachePkgs(lines []string) error {
 			deps = append(deps, depPkg{line[:pos], line[pos+1:]})
 		}
 		pkg := &pkgCache{expfile: parts[1], hash: parts[2], deps: deps}
-		p.cache.Store(parts[0], pkg)
+		entries = append(entries, entry{parts[0], pkg})
 		lines = lines[n+1:]
+	}
+	for _, e := range entries {
+		p.cache.Store(e.path, e.pkg)
 	}
 	return nil
 }
